@@ -71,7 +71,8 @@ Record rst := mkR {
   oflow : list oop;      (* what the main flow still has to do (OCore = the next element of the core's ops) *)
   fault : bool;          (* sigHandler called processSignal through something else than the running object *)
   alarm_set : bool;      (* ghost: setAlarm(sec > 0) has been executed in this process *)
-  rearm : list bool }.   (* per callback invocation (in order): the callback calls setAlarm(n > 0) when it is entered *)
+  rearm : list bool }.   (* per callback invocation (in order) TWO entries: the callback calls setAlarm(n > 0) when it is entered /
+                            the callback calls blockSignals() itself (and leaves the release to the main flow) *)
 
 Definition reg0 : rst := mkR None [] 1%nat [] false false [].
 
@@ -136,7 +137,12 @@ Definition cb_dsp (c : st) (r : rst) (d : Z -> disp) : Z -> disp :=
   if rearm_now c r then upd d alarm_sig DHandler else d.
 Definition cb_reg (c : st) (r : rst) : rst :=
   mkR (inst r) (live r) (nxt r) (oflow r) (fault r) (rearm_now c r || alarm_set r)
-      (if cb_exit c then tl (rearm r) else rearm r).
+      (if cb_exit c then tl (tl (rearm r)) else rearm r).
+(* a callback that takes a block calls blockSignals() right after it has been entered (Model.cb_block) *)
+Definition cbblock_now (c : st) (r : rst) : bool := cb_enter c && hd false (tl (rearm r)).
+(* one atomic step of the running activation / main flow, including what the entered callback does at once *)
+Definition cstep (c : st) (r : rst) : st :=
+  if cbblock_now c r then cb_block (step true 0 c) else step true 0 c.
 
 Definition ostep (d : Z) (s : ost) : ost :=
   if d =? 0 then
@@ -147,7 +153,7 @@ Definition ostep (d : Z) (s : ost) : ost :=
           | Some r' => mkO (core s) (objdsp (reg s) (dsp s)) [] (acc s) (drp s) r'
           | None => mkO (step true 0 (core s)) (dsp s) [] (acc s) (drp s) (pop_flow (reg s))
           end
-        else mkO (step true 0 (core s)) (cb_dsp (core s) (reg s) (dsp s)) [] (acc s) (drp s) (cb_reg (core s) (reg s))
+        else mkO (cstep (core s) (reg s)) (cb_dsp (core s) (reg s) (dsp s)) [] (acc s) (drp s) (cb_reg (core s) (reg s))
     | e :: r =>
         match s_ph e with
         | PEnter =>    (* signal(sig, SIG_IGN); getInstance()->processSignal(sig) is called *)
@@ -157,7 +163,7 @@ Definition ostep (d : Z) (s : ost) : ost :=
             | _ => mkO (core s) (dsp s) r (acc s) (drp s) (set_fault (reg s))    (* null / foreign object: the process is lost *)
             end
         | PRun =>      (* one atomic step of its processSignal activation; if that returns: on to the destructor *)
-            let c' := step true 0 (core s) in
+            let c' := cstep (core s) (reg s) in
             mkO c' (cb_dsp (core s) (reg s) (dsp s))
                 (if (length (stack c') <? length (stack (core s)))%nat then mkS (s_sig e) PExit :: r else hs s)
                 (acc s) (drp s) (cb_reg (core s) (reg s))
@@ -172,6 +178,11 @@ Definition ostep (d : Z) (s : ost) : ost :=
     | DDefault => s        (* would terminate the process; never the case once main() has installed (c18_os_dispositions) *)
     end
   else s.                  (* not a signal of this application *)
+
+(* the main flow re-plans at an operation boundary (Model.set_ops): not a step of the code *)
+Definition set_flow (s : ost) (f : list fop) : ost :=
+  mkO (set_ops (core s) (core_of f)) (dsp s) (hs s) (acc s) (drp s)
+      (mkR (inst (reg s)) (live (reg s)) (nxt (reg s)) (shape_of f) (fault (reg s)) (alarm_set (reg s)) (rearm (reg s))).
 
 (* scheduling-point code: 11 / 12 / 13 = the main flow is about to construct / destroy another object / copy-and-drop *this;
    14 / 15 = setAlarm(n > 0) / setAlarm(0); 16 = the error report of shutdown(true) is running (its step = it returns) *)
@@ -237,7 +248,8 @@ Fixpoint orun (fuel : nat) (ds : list Z) (s : ost) : list Z * ost :=
         m = 3: the first main() runs the flow with the first n1 decisions, a second main() runs the same flow with the rest.
         mask: bit i-1 set = number i (1..3 registered, 4 = SIGALRM) was ignored by the environment before the first main();
               bit 4 (16) = main() is given a time limit (it calls setAlarm itself).
-        ans: 0 stop, 2 = the callback re-arms the alarm (setAlarm(n > 0)) and continues, 3 = re-arms and stops, else continue.
+        ans: 0 stop, 2 = the callback re-arms the alarm (setAlarm(n > 0)) and continues, 3 = re-arms and stops,
+             4 = the callback calls blockSignals() itself and continues (the main flow releases that block later), else continue.
         op: 1..4 as in Model.v; 5 = construct another application object, 6 = destroy the most recent other object,
             7 = copy *this and drop the copy, 8 = setAlarm(n > 0), 9 = setAlarm(0), 10 = run() throws: main() catches and calls
             shutdown(true) with an onUnhandledException() override that returns (scheduling-point code 16 = inside the error report;
@@ -270,7 +282,7 @@ Definition orun_with (c : list Z) : list Z :=
       let r1 := skipn (Z.to_nat n) r in
       let k := Z.to_nat (hd 0 r1) in
       let a := map (fun x => negb ((x =? 0) || (x =? 3))) (firstn k (tl r1)) in    (* 0 and 3 answer stop *)
-      let ra := map (fun x => (x =? 2) || (x =? 3)) (firstn k (tl r1)) in          (* 2 and 3 re-arm the alarm first *)
+      let ra := flat_map (fun x => [(x =? 2) || (x =? 3); x =? 4]) (firstn k (tl r1)) in   (* 2 and 3 re-arm the alarm first; 4 takes a block *)
       let r2 := skipn k (tl r1) in
       let fuel := ofuel_of c in
       let tlim := Z.testbit mask 4 in
